@@ -2,7 +2,10 @@
 
 Every label array of length n <= 4 over {-1,0,1,2,5} x operations x {random, pre-selected}
 target, with every answer of the particle choice enumerated, on the real ``DisplacementMove``
-and on composites ``D*n`` / ``D+...+D`` (n = 1..3).
+and on composites ``D*n`` / ``D+...+D`` (n = 1..3).  For arrays of length <= 3 also every
+two-call history on ONE move object (second call judged like a first one: state left behind by a
+vetoed or successful call must not leak), and composite plans {call, call}, {call, user retires
+every particle, call}, {user pre-selects a member's target, call}.
 """
 
 from __future__ import annotations
@@ -46,14 +49,77 @@ def make_op(name, log):
     return op
 
 
-def check_single(labels, opname, viol_add, counters):
+def judge_single(labels, uniq, opname, mode, pre, pts, res, err, before, after, log, labs_after, viol_add, counters, rep, where, kind="single"):
+    """Judge ONE call of a DisplacementMove (``pts``: the explorer points of that call)."""
+    n = len(labels)
+    if err:
+        viol_add(f"C11/{kind}/{opname}/{mode}/exception", f"{err}; {where}", rep)
+        return
+    moved = np.flatnonzero(np.abs(after - before).max(axis=1) > 0) if n else np.array([], int)
+    if not uniq:
+        counters["nontrivial"] += 1
+        if res or len(moved):
+            viol_add(f"C11/{kind}/{opname}/no-eligible-particle", f"returned {res!r}, moved atoms {moved.tolist()}; {where}", rep)
+        return
+    # which label was chosen
+    if pre is None:
+        cps = [p for p in pts if p.kind == "choice"]
+        if len(cps) != 1:
+            viol_add(f"C11/{kind}/{opname}/random/selection-draws", f"{len(cps)} particle-choice draws; {where}", rep)
+            return
+        menu_ok = cps[0].n == len(uniq) and abs(cps[0].weight - 1.0 / len(uniq)) < 1e-12
+        if not menu_ok:
+            viol_add(f"C11/{kind}/{opname}/random/selection-not-uniform-over-eligible", f"choice among {cps[0].n} candidates with weight {cps[0].weight}; eligible {uniq}; {where}", rep)
+            return
+        chosen = int(cps[0].label)
+        if chosen not in uniq:
+            viol_add(f"C11/{kind}/{opname}/random/selected-ineligible-label", f"chose {chosen}; {where}", rep)
+            return
+    else:
+        chosen = pre
+    target = np.flatnonzero(labels == chosen)
+    if len(target) > 1 or (labels < 0).any():
+        counters["nontrivial"] += 1
+    checks = [p.idx for p in pts if p.kind == "user"]
+    vetoed_all = len(checks) == 2 and all(c == 1 for c in checks)
+    if vetoed_all:
+        if res or len(moved):
+            viol_add(f"C11/{kind}/{opname}/{mode}/all-attempts-vetoed-but-changed", f"returned {res!r}, moved atoms {moved.tolist()}; {where}", rep)
+        return
+    if not res:
+        viol_add(f"C11/{kind}/{opname}/{mode}/reported-failure", f"returned {res!r} although label {chosen} is eligible; {where}", rep)
+        return
+    extra = sorted(set(moved.tolist()) - set(target.tolist()))
+    if extra:
+        k2 = "negative-label-atom-moved" if any(labels[i] < 0 for i in extra) else "other-particle-moved"
+        viol_add(f"C11/{kind}/{opname}/{mode}/{k2}", f"atoms {extra} moved, selected label {chosen} owns {target.tolist()}; {where}", rep)
+        return
+    if len(log) != len(checks):
+        viol_add(f"C11/{kind}/{opname}/{mode}/operation-calls", f"{len(log)} operation results for {len(checks)} attempts; {where}", rep)
+        return
+    last = log[-1]  # the accepted attempt: the displacement must be that single result
+    want = np.broadcast_to(last, (len(target), 3)) if last.shape[0] in (1, len(target)) else None
+    got = after[target] - before[target]
+    if want is None or not np.allclose(got, want, atol=TOL, rtol=0):
+        viol_add(f"C11/{kind}/{opname}/{mode}/not-all-by-common-result", f"displacements {js(got)} vs operation result {js(last)}; selected atoms {target.tolist()}; {where}", rep)
+        return
+    if not np.array_equal(labs_after, labels):
+        viol_add(f"C11/{kind}/{opname}/{mode}/labels-changed", f"labels became {labs_after.tolist()}; {where}", rep)
+
+
+def check_single(labels, opname, viol_add, counters, second=False, only=None):
+    """One call (or, with ``second``, two consecutive calls of the SAME move object on the same
+    context: the second call is judged exactly like a first one)."""
     from quansino.mc.contexts import DisplacementContext
     from quansino.moves.displacement import DisplacementMove
 
     labels = np.array(labels, dtype=int)
     n = len(labels)
     uniq = sorted({int(l) for l in labels if l >= 0})
-    for pre in [None] + uniq:
+    plans = [(pre,) for pre in [None] + uniq]
+    if second:
+        plans = [(a, b) for a in [None] + uniq[:1] for b in [None] + uniq]
+    for plan in plans:
 
         def run(ch):
             atoms = make_atoms(n)
@@ -62,145 +128,134 @@ def check_single(labels, opname, viol_add, counters):
             mv = DisplacementMove(labels.copy(), make_op(opname, log))
             mv.max_attempts = 2
             mv.check_move = lambda *_a, **_k: ch.pick("user", 2, None, ["check-ok", "check-veto"]) == 0
-            if pre is not None:
-                mv.to_displace_labels = pre
-            before = atoms.positions.copy()
-            try:
-                res = mv(ctx)
-                err = None
-            except Exception as e:  # noqa: BLE001
-                res, err = None, f"{type(e).__name__}: {e}"
-            return res, err, before, atoms.positions.copy(), log, np.asarray(mv.labels).copy()
+            calls = []
+            for pre in plan:
+                ch.mark()
+                if pre is not None:
+                    mv.to_displace_labels = pre
+                before = atoms.positions.copy()
+                n0 = len(log)
+                try:
+                    res = mv(ctx)
+                    err = None
+                except Exception as e:  # noqa: BLE001
+                    res, err = None, f"{type(e).__name__}: {e}"
+                calls.append((ch.seg, res, err, before, atoms.positions.copy(), log[n0:], np.asarray(mv.labels).copy()))
+                if err:
+                    break
+            return calls
 
         st = Stats()
-        for ch, (res, err, before, after, log, labs_after) in explore(run, stats=st):
+        for ch, calls in explore(run, stats=st):
             counters["executions"] += 1
             counters["transitions"] += len(ch.trace)
-            mode = "random" if pre is None else "preselected"
-            rep = {"check": PID, "func": "task_single_one", "arg": {"labels": labels.tolist(), "op": opname, "pre": pre, "only": ch.choices}}
-            where = f"labels {labels.tolist()} op {opname} target {mode}"
-            if err:
-                viol_add(f"C11/single/{opname}/{mode}/exception", f"{err}; {where}", rep)
-                continue
-            moved = np.flatnonzero(np.abs(after - before).max(axis=1) > 0) if n else np.array([], int)
-            if not uniq:
-                counters["nontrivial"] += 1
-                if res or len(moved):
-                    viol_add(f"C11/single/{opname}/no-eligible-particle", f"returned {res!r}, moved atoms {moved.tolist()}; {where}", rep)
-                continue
-            # which label was chosen
-            if pre is None:
-                pts = [p for p in ch.trace if p.kind == "choice"]
-                if len(pts) != 1:
-                    viol_add(f"C11/single/{opname}/random/selection-draws", f"{len(pts)} particle-choice draws; {where}", rep)
-                    continue
-                menu_ok = pts[0].n == len(uniq) and abs(pts[0].weight - 1.0 / len(uniq)) < 1e-12
-                if not menu_ok:
-                    viol_add(f"C11/single/{opname}/random/selection-not-uniform-over-eligible", f"choice among {pts[0].n} candidates with weight {pts[0].weight}; eligible {uniq}; {where}", rep)
-                    continue
-                chosen = int(pts[0].label)
-                if chosen not in uniq:
-                    viol_add(f"C11/single/{opname}/random/selected-ineligible-label", f"chose {chosen}; {where}", rep)
-                    continue
-            else:
-                chosen = pre
-            target = np.flatnonzero(labels == chosen)
-            if len(target) > 1 or (labels < 0).any():
-                counters["nontrivial"] += 1
-            checks = [p.idx for p in ch.trace if p.kind == "user"]
-            vetoed_all = len(checks) == 2 and all(c == 1 for c in checks)
-            if vetoed_all:
-                if res or len(moved):
-                    viol_add(f"C11/single/{opname}/{mode}/all-attempts-vetoed-but-changed", f"returned {res!r}, moved atoms {moved.tolist()}; {where}", rep)
-                continue
-            if not res:
-                viol_add(f"C11/single/{opname}/{mode}/reported-failure", f"returned {res!r} although label {chosen} is eligible; {where}", rep)
-                continue
-            extra = sorted(set(moved.tolist()) - set(target.tolist()))
-            if extra:
-                kind = "negative-label-atom-moved" if any(labels[i] < 0 for i in extra) else "other-particle-moved"
-                viol_add(f"C11/single/{opname}/{mode}/{kind}", f"atoms {extra} moved, selected label {chosen} owns {target.tolist()}; {where}", rep)
-                continue
-            if len(log) != len(checks):
-                viol_add(f"C11/single/{opname}/{mode}/operation-calls", f"{len(log)} operation results for {len(checks)} attempts; {where}", rep)
-                continue
-            log = [log[-1]]  # the accepted attempt: the displacement must be that single result
-            want = np.broadcast_to(log[0], (len(target), 3)) if log[0].shape[0] in (1, len(target)) else None
-            got = after[target] - before[target]
-            if want is None or not np.allclose(got, want, atol=TOL, rtol=0):
-                viol_add(f"C11/single/{opname}/{mode}/not-all-by-common-result", f"displacements {js(got)} vs operation result {js(log[0])}; selected atoms {target.tolist()}; {where}", rep)
-                continue
-            if not np.array_equal(labs_after, labels):
-                viol_add(f"C11/single/{opname}/{mode}/labels-changed", f"labels became {labs_after.tolist()}; {where}", rep)
+            for k, (seg, res, err, before, after, log, labs_after) in enumerate(calls):
+                pre = plan[k]
+                mode = "random" if pre is None else "preselected"
+                rep = {"check": PID, "func": "task_single_one", "arg": {"labels": labels.tolist(), "op": opname, "second": second, "only": ch.choices}}
+                where = f"labels {labels.tolist()} op {opname} target {mode}" + (f" (call {k + 1} of {len(plan)} on one move object, targets {list(plan)})" if second else "")
+                pts = [p for p in ch.trace if p.seg == seg]
+                judge_single(labels, uniq, opname, mode, pre, pts, res, err, before, after, log, labs_after, viol_add, counters, rep, where, kind="single" if k == 0 else "single-second-call")
 
 
-def check_composite(labels, n_moves, form, viol_add, counters):
+def judge_composite(labels, n_moves, form, res, err, before, after, logs, displaced, nmoved, viol_add, counters, rep, where, kind="composite"):
+    n = len(labels)
+    uniq = sorted({int(l) for l in labels if l >= 0})
+    if err:
+        viol_add(f"C11/{kind}/{form}/exception", f"{err}; {where}", rep)
+        return
+    if n_moves > 1 and len(uniq) > 1:
+        counters["nontrivial"] += 1
+    moved_atoms = np.flatnonzero(np.abs(after - before).max(axis=1) > 0) if n else np.array([], int)
+    moved_labels = sorted({int(labels[i]) for i in moved_atoms})
+    real = [d for d in displaced if d is not None]
+    if len(set(int(d) for d in real)) != len(real):
+        viol_add(f"C11/{kind}/{form}/particle-displaced-twice", f"displaced labels {js(displaced)}; {where}", rep)
+        return
+    expect = min(n_moves, len(uniq))
+    if len(real) != expect:
+        viol_add(f"C11/{kind}/{form}/moved-count", f"moved {len(real)} particles, expected min({n_moves},{len(uniq)}); {where}", rep)
+        return
+    if nmoved != len(moved_labels) or sorted(int(d) for d in real) != moved_labels:
+        viol_add(f"C11/{kind}/{form}/report-differs-from-moved", f"reports {nmoved} moved / labels {js(real)}, positions show labels {moved_labels}; {where}", rep)
+        return
+    if any(labels[i] < 0 for i in moved_atoms):
+        viol_add(f"C11/{kind}/{form}/negative-label-atom-moved", f"atoms {moved_atoms.tolist()}; {where}", rep)
+        return
+    if bool(res) != (expect > 0):
+        viol_add(f"C11/{kind}/{form}/result", f"returned {res!r} with {expect} particles moved; {where}", rep)
+        return
+    # every moved particle moved by exactly one operation result, common to its atoms
+    if len(logs) != len(real):
+        viol_add(f"C11/{kind}/{form}/operation-calls", f"{len(logs)} operation results for {len(real)} moved particles; {where}", rep)
+        return
+    for d, r in zip(real, logs):
+        t = np.flatnonzero(labels == int(d))
+        if not np.allclose(after[t] - before[t], np.broadcast_to(r, (len(t), 3)), atol=TOL, rtol=0):
+            viol_add(f"C11/{kind}/{form}/not-all-by-common-result", f"label {d}; {where}", rep)
+            break
+
+
+def composite_plans(labels, second):
+    """A plan is a list of user actions, each followed by one call of the composite."""
+    uniq = sorted({int(l) for l in labels if l >= 0})
+    if not second:
+        return [[None]]
+    plans = [[None, "all-ineligible"], [None, None]]
+    plans += [[f"preselect:{l}"] for l in uniq] + [[None, f"preselect:{uniq[0]}"]] if uniq else []
+    return plans
+
+
+def check_composite(labels, n_moves, form, viol_add, counters, second=False, only_plan=None):
     from quansino.mc.contexts import DisplacementContext
     from quansino.moves.displacement import DisplacementMove
-    from quansino.operations.displacement import Box
 
     labels = np.array(labels, dtype=int)
     n = len(labels)
-    uniq = sorted({int(l) for l in labels if l >= 0})
+    plans = composite_plans(labels, second) if only_plan is None else [only_plan]
+    for plan in plans:
 
-    def run(ch):
-        atoms = make_atoms(n)
-        logs = []
-        ctx = DisplacementContext(atoms, ChoiceRNG(ch, Policy(**POLICY)))
-        if form == "mul":
-            comp = DisplacementMove(labels.copy(), make_op("box", logs))
-            comp = comp * n_moves if n_moves > 1 else comp * 1
-        else:
-            ms = [DisplacementMove(labels.copy(), make_op("box" if i % 2 == 0 else "ball", logs)) for i in range(n_moves)]
-            comp = ms[0] * 1 if n_moves == 1 else ms[0]
-            for m in ms[1:]:
-                comp = comp + m
-        before = atoms.positions.copy()
-        try:
-            res = comp(ctx)
-            err = None
-        except Exception as e:  # noqa: BLE001
-            res, err = None, f"{type(e).__name__}: {e}"
-        return res, err, before, atoms.positions.copy(), logs, list(getattr(comp, "displaced_labels", [])), getattr(comp, "number_of_moved_particles", None)
+        def run(ch):
+            atoms = make_atoms(n)
+            logs = []
+            ctx = DisplacementContext(atoms, ChoiceRNG(ch, Policy(**POLICY)))
+            if form == "mul":
+                comp = DisplacementMove(labels.copy(), make_op("box", logs))
+                comp = comp * n_moves if n_moves > 1 else comp * 1
+            else:
+                ms = [DisplacementMove(labels.copy(), make_op("box" if i % 2 == 0 else "ball", logs)) for i in range(n_moves)]
+                comp = ms[0] * 1 if n_moves == 1 else ms[0]
+                for m in ms[1:]:
+                    comp = comp + m
+            cur = labels.copy()
+            calls = []
+            for action in plan:
+                if action == "all-ineligible":  # the user retires every particle (documented setter)
+                    cur = np.full(n, -1)
+                    for m in {id(m): m for m in comp.moves}.values():
+                        m.set_labels(cur.copy())
+                elif action is not None and action.startswith("preselect:"):
+                    comp.moves[-1].to_displace_labels = int(action.split(":")[1])
+                before = atoms.positions.copy()
+                n0 = len(logs)
+                try:
+                    res = comp(ctx)
+                    err = None
+                except Exception as e:  # noqa: BLE001
+                    res, err = None, f"{type(e).__name__}: {e}"
+                calls.append((cur.copy(), res, err, before, atoms.positions.copy(), logs[n0:], list(getattr(comp, "displaced_labels", [])), getattr(comp, "number_of_moved_particles", None)))
+                if err:
+                    break
+            return calls
 
-    for ch, (res, err, before, after, logs, displaced, nmoved) in explore(run):
-        counters["executions"] += 1
-        counters["transitions"] += len(ch.trace)
-        rep = {"check": PID, "func": "task_comp_one", "arg": {"labels": labels.tolist(), "n_moves": n_moves, "form": form, "only": ch.choices}}
-        where = f"labels {labels.tolist()} composite {form} of {n_moves}"
-        if err:
-            viol_add(f"C11/composite/{form}/exception", f"{err}; {where}", rep)
-            continue
-        if n_moves > 1 and len(uniq) > 1:
-            counters["nontrivial"] += 1
-        moved_atoms = np.flatnonzero(np.abs(after - before).max(axis=1) > 0) if n else np.array([], int)
-        moved_labels = sorted({int(labels[i]) for i in moved_atoms})
-        real = [d for d in displaced if d is not None]
-        if len(set(int(d) for d in real)) != len(real):
-            viol_add(f"C11/composite/{form}/particle-displaced-twice", f"displaced labels {js(displaced)}; {where}", rep)
-            continue
-        expect = min(n_moves, len(uniq))
-        if len(real) != expect:
-            viol_add(f"C11/composite/{form}/moved-count", f"moved {len(real)} particles, expected min({n_moves},{len(uniq)}); {where}", rep)
-            continue
-        if nmoved != len(moved_labels) or sorted(int(d) for d in real) != moved_labels:
-            viol_add(f"C11/composite/{form}/report-differs-from-moved", f"reports {nmoved} moved / labels {js(real)}, positions show labels {moved_labels}; {where}", rep)
-            continue
-        if any(labels[i] < 0 for i in moved_atoms):
-            viol_add(f"C11/composite/{form}/negative-label-atom-moved", f"atoms {moved_atoms.tolist()}; {where}", rep)
-            continue
-        if bool(res) != (expect > 0):
-            viol_add(f"C11/composite/{form}/result", f"returned {res!r} with {expect} particles moved; {where}", rep)
-            continue
-        # every moved particle moved by exactly one operation result, common to its atoms
-        if len(logs) != len(real):
-            viol_add(f"C11/composite/{form}/operation-calls", f"{len(logs)} operation results for {len(real)} moved particles; {where}", rep)
-            continue
-        for d, r in zip(real, logs):
-            t = np.flatnonzero(labels == int(d))
-            if not np.allclose(after[t] - before[t], np.broadcast_to(r, (len(t), 3)), atol=TOL, rtol=0):
-                viol_add(f"C11/composite/{form}/not-all-by-common-result", f"label {d}; {where}", rep)
-                break
+        for ch, calls in explore(run):
+            counters["executions"] += 1
+            counters["transitions"] += len(ch.trace)
+            for k, (cur, res, err, before, after, logs, displaced, nmoved) in enumerate(calls):
+                rep = {"check": PID, "func": "task_comp_one", "arg": {"labels": labels.tolist(), "n_moves": n_moves, "form": form, "plan": plan, "only": ch.choices}}
+                where = f"labels {cur.tolist()} composite {form} of {n_moves}" + (f" (call {k + 1} of plan {plan})" if second or only_plan else "")
+                kind = "composite" if plan == [None] else "composite-sequence/" + "+".join((a or "call").split(":")[0] for a in plan[: k + 1])
+                judge_composite(cur, n_moves, form, res, err, before, after, logs, displaced, nmoved, viol_add, counters, rep, where, kind=kind)
 
 
 def _mk_viol():
@@ -224,19 +279,25 @@ def task(arg):
         for nm in arg["comp_sizes"]:
             for form in ("mul", "add"):
                 check_composite(labels, nm, form, add, counters)
+        if arg.get("sequences"):
+            for op in ("box", "trans"):
+                check_single(labels, op, add, counters, second=True)
+            for nm in (2, 3):
+                for form in ("mul", "add"):
+                    check_composite(labels, nm, form, add, counters, second=True)
     counters["violating"] = sum(seen.values())
     return {"counters": counters, "violations": viol, "samples": []}
 
 
 def task_single_one(arg):
     viol, seen, add = _mk_viol()
-    check_single(arg["labels"], arg["op"], add, {"executions": 0, "transitions": 0, "nontrivial": 0})
+    check_single(arg["labels"], arg["op"], add, {"executions": 0, "transitions": 0, "nontrivial": 0}, second=arg.get("second", False))
     return {"violations": viol}
 
 
 def task_comp_one(arg):
     viol, seen, add = _mk_viol()
-    check_composite(arg["labels"], arg["n_moves"], arg["form"], add, {"executions": 0, "transitions": 0, "nontrivial": 0})
+    check_composite(arg["labels"], arg["n_moves"], arg["form"], add, {"executions": 0, "transitions": 0, "nontrivial": 0}, only_plan=arg.get("plan"))
     return {"violations": viol}
 
 
@@ -252,7 +313,7 @@ def run(tier, seed):
         return [lst[i::k] for i in range(k)]
 
     for c in chunks(small, 16):
-        args.append({"arrays": c, "ops": ["box", "ball", "trans", "rot"], "comp_sizes": [1, 2, 3]})
+        args.append({"arrays": c, "ops": ["box", "ball", "trans", "rot"], "comp_sizes": [1, 2, 3], "sequences": True})
     for c in chunks(big, 64):
         args.append({"arrays": c, "ops": ["box", "ball", "trans", "rot"], "comp_sizes": [1, 2, 3]})
     if tier == "thorough":
@@ -270,7 +331,7 @@ def run(tier, seed):
         "label_arrays": acc.n("label_arrays"),
         "nontrivial_executions": acc.n("nontrivial"),
         "violating": acc.n("violating"),
-        "bound": "all label arrays of length 0..4 (thorough: 0..5) over {-3,-1,0,1,2,5}; check_move answers (max_attempts=2) on single moves; operations Box/Ball/Translation/Rotation; random and every pre-selected target; composites D*n and D+..+D for n=1..3 (length 5: 2..4); every particle-choice answer; one proposal value per draw",
+        "bound": "all label arrays of length 0..4 (thorough: 0..5) over {-3,-1,0,1,2,5}; check_move answers (max_attempts=2) on single moves; operations Box/Ball/Translation/Rotation; random and every pre-selected target; composites D*n and D+..+D for n=1..3 (length 5: 2..4); every particle-choice answer; one proposal value per draw; arrays of length <= 3 additionally: all two-call histories on one move object (ops Box/Translation, random and pre-selected targets, all check answers) and composite plans call-call / call-retire-all-call / preselect-call",
         "exhaustive": True,
         "samples": [{"labels": [2, -3, 2, 0], "op": "rot", "target": "random", "checked": "moved set == atoms of chosen label, displacement == recorded operation result"}],
     }
